@@ -91,6 +91,12 @@ impl Report {
         }
     }
 
+    /// number of violations recorded so far whose signature belongs to property `pid`
+    pub fn own_violations(&self, pid: &str) -> u64 {
+        let pre = format!("{}:", pid);
+        self.sig_counts.iter().filter(|(k, _)| k.starts_with(&pre)).map(|(_, v)| *v).sum()
+    }
+
     pub fn inconclusive(&mut self, why: impl Into<String>) {
         let w = why.into();
         if !self.inconclusive.contains(&w) {
